@@ -71,6 +71,8 @@ def parseVariant (j : Json) : Except String Variant := do
   match ← getStr j "variant" with
   | "asis" => pure .asIs
   | "repaired" => pure .repaired
+  | "both-only" => pure ⟨true, false⟩
+  | "crash-only" => pure ⟨false, true⟩
   | k => throw s!"unknown variant {k}"
 
 def parseMode (j : Json) : Except String Mode := do
